@@ -88,9 +88,9 @@ class Problem:
         :param dom_offset: the domain offset (set to 0 if not defined)
         :return: the index of the extra variable
         """
-        insertion_idx = len(self.shr_domains_lst)
+        insertion_idx = len(self.dom_indices_lst)  # variables and shared domains are not numbered alike when domains are shared
         if dom_index is None:
-            dom_index = insertion_idx
+            dom_index = len(self.shr_domains_lst)
         if dom_offset is None:
             dom_offset = 0
         self.shr_domains_lst.append(
@@ -98,7 +98,7 @@ class Problem:
         )
         self.dom_indices_lst.append(dom_index)
         self.dom_offsets_lst.append(dom_offset)
-        self.shr_domain_nb = len(self.dom_indices_lst)
+        self.shr_domain_nb = len(self.shr_domains_lst)
         return insertion_idx
 
     def add_variables(
@@ -114,10 +114,10 @@ class Problem:
         :param dom_offsets_list: the domain offsets (set to 0 if not defined)
         :return: the index where the extra variables have been added
         """
-        insertion_idx = len(self.shr_domains_lst)
+        insertion_idx = len(self.dom_indices_lst)  # variables and shared domains are not numbered alike when domains are shared
         n = len(shr_domains_list)
         if dom_indices_list is None:
-            dom_indices_list = [insertion_idx + i for i in range(n)]
+            dom_indices_list = [len(self.shr_domains_lst) + i for i in range(n)]
         if dom_offsets_list is None:
             dom_offsets_list = [0] * n
         self.shr_domains_lst.extend(
@@ -128,7 +128,7 @@ class Problem:
         )
         self.dom_indices_lst.extend(dom_indices_list)
         self.dom_offsets_lst.extend(dom_offsets_list)
-        self.shr_domain_nb = len(self.dom_indices_lst)
+        self.shr_domain_nb = len(self.shr_domains_lst)
         return insertion_idx
 
     def add_propagator(self, propagator: Tuple[List[int], int, List[int]]) -> None:
